@@ -4,5 +4,4 @@ SPECIFICATION Spec
 CONSTANTS MaxSteps = 4
 INVARIANT C10_AnswerIsSelectionOverLoadedBlocks
 INVARIANT LoadedFollowsBucketAtSync
-VIEW View
 CHECK_DEADLOCK FALSE
